@@ -104,6 +104,11 @@ def copy_harness_group(scratch, group):
     src = os.path.join(VERIF, "harness", group)
     dst = os.path.join(scratch, "h", group)
     shutil.copytree(src, dst, ignore=shutil.ignore_patterns("target", "Cargo.lock"))
+    # shared harness modules: referenced as #[path = "../../common/<file>.rs"]
+    common = os.path.join(VERIF, "harness", "common")
+    cdst = os.path.join(scratch, "h", "common")
+    if os.path.isdir(common) and not os.path.exists(cdst):
+        shutil.copytree(common, cdst)
     lock = os.path.join(REPO, "Cargo.lock")
     if os.path.exists(lock):
         shutil.copy(lock, os.path.join(dst, "Cargo.lock"))
